@@ -37,6 +37,7 @@ MIN_REACH = {
     "second_runs_on_same_runner": {"quick": 15, "thorough": 300},
     "varying_coordinate_labels_selected": {"quick": 300, "thorough": 5000},
     "positional_cases_named_by_stored_fn_args": {"quick": 10, "thorough": 200},
+    "caller_mappings_compared": {"quick": 1500, "thorough": 30000},
 }
 TIME_BUDGET = {"quick": 400, "thorough": 3400}
 
@@ -348,6 +349,8 @@ def run_case(ctx, case):
     descr = dict(var_dims=var_dims, var_coords=var_coords, constants=stored_constants or None,
                  resources=resources or None, attrs=attrs or None)
 
+    import copy as _copy
+    given_before = _copy.deepcopy({"attrs": attrs, "constants": stored_constants, "run_constants": run_constants, "resources": resources})
     out, err, runner = None, None, None
     try:
         with quiet():
@@ -380,8 +383,8 @@ def run_case(ctx, case):
                     out = runner.run_combos(combos_arg, **kw)
                 else:
                     if sub:
-                        # run_cases forwards to case_runner_to_ds(parse=False): sub-grids in parsed form
-                        kw["combos"] = tuple((a, list(v)) for a, v in sub)
+                        # the sub-grid as a mapping (documented), or as pairs
+                        kw["combos"] = tuple((a, list(v)) for a, v in sub) if rs % 3 == 0 else {a: list(v) for a, v in sub}
                     out = runner.run_cases(cases_arg, fn_args=fn_args, **kw) if fn_args is not None \
                         else runner.run_cases(cases_arg, **kw)
     except Exception as e:
@@ -407,6 +410,12 @@ def run_case(ctx, case):
             [k for k in cg if k not in set(want_keys)][:2]), dict(sig0, oracle="exactly-once"))
 
     bad = []
+    # the mappings handed in are the caller's: the library may not write into them (a Runner keeps using them)
+    given_after = {"attrs": attrs, "constants": stored_constants, "run_constants": run_constants, "resources": resources}
+    for gk, gv in given_after.items():
+        ctx.count("caller_mappings_compared")
+        if repr(gv) != repr(given_before[gk]):
+            bad.append("the %s mapping handed in by the caller was modified by the call: %r -> %r" % (gk, given_before[gk], gv))
 
     def expected_outputs(p):
         v = probe.make(kind, {**p, **full_kwargs_extra})
@@ -557,6 +566,9 @@ def run_case(ctx, case):
             if got2 != [want2]:
                 bad.append("a later run on the same Runner (without per-run constants) called the function with %s, expected %s: "
                            "the constants given 'for this run only' stuck to the Runner" % (got2, want2))
+            for k in run_constants:
+                if k not in stored_constants and (k in ds2.attrs or k in ds2.coords):
+                    bad.append("a later run on the same Runner records %s=%r, a constant given to an EARLIER run only" % (k, ds2.attrs.get(k, ds2.coords.get(k))))
             for k, v in stored_constants.items():
                 if k not in const_dims and k not in ds2.dims and refmodel.deep_eq(refmodel._norm_attr(ds2.attrs.get(k)), v):
                     bad.append("a later run records constant %s=%r, the Runner's stored value is %r" % (k, ds2.attrs.get(k), v))
